@@ -8,7 +8,7 @@ INFO = {
     'functions': ['rtamt.syntax.ast.parser.abstract_ast_parser.get_value / results / phi_name_to_node_dict', 'rtamt.syntax.ast.parser.ltl.parser_visitor.visitAssertion / visitExprId',
                   'offline visitors\' visit() (results[node])', 'AbstractOnlineUpdateVisitor (results), interpreters\' update()', 'StlPastifier.visit (renaming of phi_name_to_node_dict)'],
     'bounds': {'quick': 'sub-spec definitions x referencing formulas of C09 (incl. nested sub-specs, duplicated sub-formulas), names = every input variable, every assertion/sub-spec name; '
-                        'dt offline/online/pastified N=5, dense offline/online n=3; a later name whose formula text occurs inside an earlier definition next to a bounded-future operator',
+                        'dt offline/online/pastified N=5, dense offline/online n=3; a later name whose formula text occurs inside an earlier definition next to a bounded-future operator; named values read after an evaluate() that follows a FAILED evaluate() on the same object',
                'thorough': 'N=7, more pairs, dense n=4'},
     'outside': 'names of anonymous sub-formulas (printed text) are only checked for the few listed in the obligations',
     'assumptions': ['stand-alone reference = a fresh specification whose only assertion is the inlined formula of that name, pastified too if the main one was'],
